@@ -6,10 +6,11 @@
       in the hull of the selected points (hence of all points).
       ([backup_valid]; this is the weights/subset clause of C18 for the model, every arm.)
 
-    Optimality of the returned point is NOT proved in general here: see
-    [backup_optimal_partial] in Props/C18.v for what is missing; it is proved for every lattice
-    configuration in Proofs/SimplexLattice*.v and refuted for small tetrahedra in
-    Proofs/SimplexRefuted.v. *)
+    Optimality: proved here for two points ([backup_segment_optimal], all real inputs); for three
+    and four points only "no worse than every candidate tried" ([try_cand_mono],
+    [try_vertex_mono]) -- missing is Johnson's theorem (the carrier of the optimum is eligible).
+    Exact optimality is proved for every lattice configuration in Proofs/SimplexLattice*.v and
+    refuted for small tetrahedra in Proofs/SimplexRefuted.v. *)
 From Coq Require Import List NArith QArith Reals Lra Psatz Bool Lia.
 From D3 Require Import Base.Ops Base.Vec Base.RVec Spec.Convex Spec.ConvexHull Model.SimplexOrig.
 Import ListNotations.
@@ -194,4 +195,94 @@ Proof.
   split; auto. revert H1. apply conv_hull_incl.
   intros p Hp. apply in_map_iff in Hp. destruct Hp as (i & <- & Hi).
   rewrite Forall_forall in Hr. specialize (Hr i Hi). unfold pt. apply nth_In. exact Hr.
+Qed.
+
+(** ** every step can only decrease the squared distance, and ends up no worse than what it tried *)
+Definition st_d2 (st : @bstate R) : R := let '(_, s, _, _) := st in s_d2 s.
+
+Lemma try_cand_mono dv c e f o st :
+  st_d2 (try_cand dv c e f o st) <= st_d2 st /\
+  (e = true -> st_d2 (try_cand dv c e f o st) <= s_d2 (f tt)).
+Proof.
+  destruct st as [[[n s] o0] tr]. unfold try_cand. destruct e.
+  - cbn [ltb ROps]. destruct (Rltb (s_d2 (f tt)) (s_d2 s)) eqn:E;
+      [apply Rltb_true in E|apply Rltb_false in E]; cbn [st_d2]; split; intros; lra.
+  - cbn [st_d2]. split; [lra|discriminate].
+Qed.
+
+Lemma try_vertex_mono (Y : list V3R) dv c vi tvv st :
+  st_d2 (try_vertex Y dv c vi tvv st) <= st_d2 st /\ st_d2 (try_vertex Y dv c vi tvv st) <= tvv.
+Proof.
+  destruct st as [[[n s] o0] tr]. unfold try_vertex. cbn [ltb ROps].
+  destruct (Rltb tvv (s_d2 s)) eqn:E; [apply Rltb_true in E|apply Rltb_false in E]; cbn [st_d2 from_vertex s_d2]; lra.
+Qed.
+
+(** ** two points: the backup procedure returns a minimum-norm point of the segment, all real inputs *)
+Theorem backup_segment_optimal (y0 y1 : V3R) :
+  let r := @backup_procedure_line_segment R ROps [y0; y1] in
+  is_min_norm [y0; y1] (s_v (b_sol r)).
+Proof.
+  unfold backup_procedure_line_segment. cbv zeta.
+  unfold t, pt. cbn [nth]. cbn [leb zero sub ROps].
+  set (t00 := dot y0 y0). set (t10 := dot y1 y0). set (t11 := dot y1 y1).
+  set (d12 := t00 - t10). set (d02 := t11 - t10).
+  assert (H0in : conv_hull [y0; y1] y0) by (apply conv_hull_In; simpl; auto).
+  assert (H1in : conv_hull [y0; y1] y1) by (apply conv_hull_In; simpl; auto).
+  assert (E01 : dot y0 y1 = t10) by (unfold t10; apply dot_comm).
+  destruct (negb (Rleb d02 0 || Rleb d12 0)) eqn:El.
+  - (* interior candidate *)
+    apply elig2 in El. destruct El as [Hd02 Hd12].
+    unfold try_cand at 1. 
+    set (sd := from_line_segment [y0; y1] 0 1 d02 d12).
+    assert (Hs : 0 < d02 + d12) by lra.
+    set (b0 := d02 / (d02 + d12)). set (b1 := 1 - b0).
+    assert (Hb1 : b1 = d12 / (d02 + d12)) by (unfold b1, b0; field; lra).
+    assert (Hb0p : 0 < b0) by (unfold b0; apply Rmult_lt_0_compat; [lra|apply Rinv_0_lt_compat; lra]).
+    assert (Hb1p : 0 < b1) by (rewrite Hb1; apply Rmult_lt_0_compat; [lra|apply Rinv_0_lt_compat; lra]).
+    set (v := vadd (vscale b0 y0) (vscale b1 y1)).
+    assert (Hsd : sd = Sol v (dot v v) [b0; b1]) by reflexivity.
+    assert (Hv0 : dot v y0 = b0 * t00 + b1 * t10) by (unfold v; rewrite dot_add_l, !dot_scale_l; reflexivity).
+    assert (Hv1 : dot v y1 = b0 * t10 + b1 * t11) by (unfold v; rewrite dot_add_l, !dot_scale_l, E01; reflexivity).
+    assert (Heq : dot v y0 = dot v y1).
+    { rewrite Hv0, Hv1, Hb1. unfold b0, d12, d02. field. unfold d02, d12 in Hs. lra. }
+    assert (Hvv : dot v v = dot v y0).
+    { unfold v at 2. rewrite dot_add_r, !dot_scale_r. rewrite <- Heq. unfold b1. ring. }
+    assert (Hmin : is_min_norm [y0; y1] v).
+    { apply is_min_norm_of_kkt; [apply conv_hull_2; [lra|lra|unfold b1; lra]|].
+      intros y [<-|[<-|[]]]; lra. }
+    (* |y0|^2 - |v|^2 = b1^2 |y0 - y1|^2 > 0, |y1|^2 - |v|^2 = b0^2 |y0 - y1|^2 > 0 *)
+    assert (Hlen : d02 + d12 = dot (vsub y0 y1) (vsub y0 y1)).
+    { unfold d02, d12, t00, t10, t11. vsimp. ring. }
+    assert (G0 : dot v v < t00).
+    { assert (t00 - dot v v = b1 * b1 * (d02 + d12)).
+      { rewrite Hvv, Hv0. unfold b1 at 1. unfold d12, d02. unfold b1, b0, d02, d12. field. unfold d02, d12 in Hs. lra. }
+      assert (0 < b1 * b1 * (d02 + d12)) by (apply Rmult_lt_0_compat; [nra|lra]). lra. }
+    assert (G1 : dot v v < t11).
+    { assert (t11 - dot v v = b0 * b0 * (d02 + d12)).
+      { rewrite Hvv, Heq, Hv1. unfold b1, b0, d02, d12. field. unfold d02, d12 in Hs. lra. }
+      assert (0 < b0 * b0 * (d02 + d12)) by (apply Rmult_lt_0_compat; [nra|lra]). lra. }
+    rewrite Hsd. cbn [s_d2 from_vertex ltb ROps].
+    replace (Rltb (dot v v) t00) with true by (symmetry; apply Rltb_true; exact G0).
+    unfold try_vertex. cbn [s_d2 ltb ROps].
+    replace (Rltb t11 (dot v v)) with false by (symmetry; apply Rltb_false; lra).
+    cbn [finish b_sol s_v]. exact Hmin.
+  - (* no interior candidate *)
+    rewrite negb_false_iff, orb_true_iff in El.
+    unfold try_cand at 1. unfold try_vertex. cbn [from_vertex s_d2 ltb ROps].
+    destruct El as [El|El]; apply Rleb_true in El.
+    + (* d02 <= 0: y1 satisfies the variational inequality *)
+      assert (Hmin1 : is_min_norm [y0; y1] y1).
+      { apply is_min_norm_of_kkt; auto. intros y [<-|[<-|[]]]; [|lra]. fold t11. rewrite (dot_comm y1 y0), E01. unfold d02 in El. lra. }
+      destruct (Rltb t11 t00) eqn:E; [apply Rltb_true in E|apply Rltb_false in E]; cbn [finish b_sol]; unfold from_vertex, pt; cbn [s_v nth].
+      * exact Hmin1.
+      * split; auto. intros x Hx. destruct Hmin1 as [_ Hm]. specialize (Hm x Hx).
+        assert (norm y0 <= norm y1) by (apply norm_le_of_sq; unfold t00, t11 in E; lra). lra.
+    + (* d12 <= 0: y0 satisfies the variational inequality *)
+      assert (Hmin0 : is_min_norm [y0; y1] y0).
+      { apply is_min_norm_of_kkt; auto. intros y [<-|[<-|[]]]; [lra|]. fold t00. rewrite E01. unfold d12 in El. lra. }
+      destruct (Rltb t11 t00) eqn:E; [apply Rltb_true in E|apply Rltb_false in E]; cbn [finish b_sol]; unfold from_vertex, pt; cbn [s_v nth].
+      * exfalso. destruct Hmin0 as [_ Hm]. specialize (Hm y1 H1in).
+        pose proof (norm_sq y0). pose proof (norm_sq y1). pose proof (norm_nonneg y0). pose proof (norm_nonneg y1).
+        unfold t00, t11 in E. nra.
+      * exact Hmin0.
 Qed.
